@@ -18,6 +18,16 @@ def run(tier, seed):
     for cfg in cfgs:
         c01.run_config(rep, cfg, tier, tasks, flavour="O3chk")
         if cfg.startswith("serial"): c02.run_config(rep, cfg, tier, tasks, flavour="O3chk")
+    # Part 2 (layer G on the checked O0 IR): integer arithmetic on recoded digits in the scalar-multiplication algorithms - the digit
+    # negations / index computations of Pippenger for every window width (w = 6, 7, 8 are selected by the number of points),
+    # variable-base and Straus; every overflow check and bounds check met with symbolic digits is an obligation
+    from checks import c04
+    chk = build.ir("serial64", "O0chk")
+    heavy = [(2, 2, 6), (800, 1, 8)] if tier == "quick" else [(2, 2, 6), (3, 3, 6), (500, 1, 7), (800, 2, 8)]
+    for n, nsym, w in heavy:
+        tasks.insert(0, lambda n=n, nsym=nsym, w=w: c04.pippenger_harness(rep, "serial64", chk, "checked build: serial Pippenger n=%d (w=%d), %d symbolic scalar(s)" % (n, w, nsym), "vp_g_pippenger", n, nsym,
+                     "%d points, %d with all radix-2^%d digit vectors (all scalars), the others 0; overflow-checks and debug assertions on" % (n, nsym, w)))
+    for t in c04.vartime_harnesses(rep, "serial64", chk, "quick"): tasks.append(t)
     run_tasks(tasks, rep)
     for it in rep.items: it["harness"] = "chk:" + it["harness"]
     rep.explanation = "panic-edge infeasibility + functional equivalence on the overflow-checked/debug-assert IR"
